@@ -23,3 +23,7 @@ def rules(ctx):
     S.c12_tree_rules(ctx)
     S.c12_db_rules(ctx)
     S.walker_rules(ctx)
+    S.c11_rules(ctx)
+    S.c06_r3_durable_drains(ctx)
+    S.c06_r4_rebuild(ctx)
+    S.c06_r2_handover(ctx)
